@@ -499,7 +499,11 @@ class _Parser(object):
             return str(parsed).upper() if parsed is not None else ''
         if operator == '$concat':
             parsed_list = list(self.parse_many(values))
-            return None if None in parsed_list else ''.join([str(x) for x in parsed_list])
+            for parsed_item in parsed_list:
+                if parsed_item is not None and not isinstance(parsed_item, str):
+                    raise OperationFailure(
+                        '$concat only supports strings, not {}'.format(type(parsed_item)))
+            return None if None in parsed_list else ''.join(parsed_list)
         if operator == '$split':
             if len(values) != 2:
                 raise OperationFailure('split must have 2 items')
